@@ -57,7 +57,27 @@ def kept (excludes : List Num) (v : Num) : Bool := !(excludes.any (fun e => e ==
 /-- `_crop`: a zone cell is selected when some listed id `==` it -/
 def selected (ids : List Num) (v : Num) : Bool := ids.any (fun e => ieeeEq e v)
 
-/-- a labelled raster: cells, the two coordinate vectors, attrs -/
+/-- a coordinate *variable* of the raster other than a bare label vector: a scalar coordinate (`spatial_ref`, `band`,
+    `time`), a 1-D coordinate along one of the two dimensions (the dimension coordinate itself, with its attrs, or an
+    extra one), or a 2-D auxiliary coordinate (lon / lat on (y, x)).  `onY` / `onX` say which dimensions it has;
+    `val y x` is its label at a position and does not depend on the position along a dimension it does not have
+    (read at 0 there); it has attrs of its own. -/
+structure Coord (κ τ : Type) where
+  name : String
+  onY : Bool
+  onX : Bool
+  val : Nat → Nat → κ
+  attrs : τ
+
+/-- a coordinate variable of the result: its labels as rows (one row / one column for a dimension it does not have) -/
+structure WCoord (κ τ : Type) where
+  name : String
+  onY : Bool
+  onX : Bool
+  vals : List (List κ)
+  attrs : τ
+
+/-- a labelled raster: cells, the two coordinate vectors, attrs, and every coordinate variable it carries -/
 structure Raster (κ τ : Type) where
   rows : Nat
   cols : Nat
@@ -65,6 +85,7 @@ structure Raster (κ τ : Type) where
   ys : Nat → κ
   xs : Nat → κ
   attrs : τ
+  coords : List (Coord κ τ) := []
 
 /-- the result DataArray -/
 structure Window (κ τ : Type) where
@@ -73,16 +94,25 @@ structure Window (κ τ : Type) where
   xs : List κ
   attrs : τ
   name : String
+  coords : List (WCoord κ τ) := []
 
 /-- positions selected by the Python slice `[lo:hi]` on an axis of length `n` (`0 ≤ lo`, `0 ≤ hi`):
     `lo, lo+1, …, min(hi,n)-1` -/
 def sliceIdx (n : Nat) (lo hi : Int) : List Nat := List.range' lo.toNat (min hi.toNat n - lo.toNat)
 
-/-- `raster[top: bottom + 1, left: right + 1]`, then `.name = name` -/
+/-- positional indexing of one coordinate variable by the row / column positions `ri` / `ci` of the window: it is
+    restricted along the dimensions it has and left alone along the others -/
+def Coord.restrict {κ τ : Type} (c : Coord κ τ) (ri ci : List Nat) : WCoord κ τ :=
+  ⟨c.name, c.onY, c.onX,
+   (if c.onY then ri else [0]).map fun y => (if c.onX then ci else [0]).map fun x => c.val y x, c.attrs⟩
+
+/-- `raster[top: bottom + 1, left: right + 1]`, then `.name = name`: cells, both label vectors and every coordinate
+    variable are taken at the same positions -/
 def window {κ τ : Type} (r : Raster κ τ) (b : Bounds) (name : String) : Window κ τ :=
   let ri := sliceIdx r.rows b.top (b.bottom + 1)
   let ci := sliceIdx r.cols b.left (b.right + 1)
-  ⟨ri.map fun y => ci.map fun x => r.cell y x, ri.map r.ys, ci.map r.xs, r.attrs, name⟩
+  ⟨ri.map fun y => ci.map fun x => r.cell y x, ri.map r.ys, ci.map r.xs, r.attrs, name,
+   r.coords.map fun c => c.restrict ri ci⟩
 
 def trimBounds {κ τ : Type} (r : Raster κ τ) (excludes : List Num) : Bounds :=
   bounds r.rows r.cols (fun y x => kept excludes (r.cell y x))
